@@ -42,8 +42,9 @@ def pool(inputs, init, reduce_fn, window_shape, strides, padding):
   Returns:
     The output of the reduction for each window slice.
   """
+  window_shape = tuple(window_shape)
   num_batch_dims = inputs.ndim - (len(window_shape) + 1)
-  strides = strides or (1,) * len(window_shape)
+  strides = tuple(strides) if strides else (1,) * len(window_shape)
   assert len(window_shape) == len(
     strides
   ), f'len({window_shape}) must equal len({strides})'
@@ -69,7 +70,7 @@ def pool(inputs, init, reduce_fn, window_shape, strides, padding):
     assert all(
       [len(x) == 2 for x in padding]
     ), f'each entry in padding {padding} must be length 2'
-    padding = ((0, 0),) + padding + ((0, 0),)
+    padding = ((0, 0),) * max(num_batch_dims, 1) + padding + ((0, 0),)
   y = lax.reduce_window(inputs, init, reduce_fn, dims, strides, padding)
   if is_single_input:
     y = jnp.squeeze(y, axis=0)
